@@ -151,3 +151,68 @@ func vxH_C17_deferredSort() {
 	snap.Close()
 	c.Close()
 }
+
+func init() { vxRegister("vxH_C17_mergeWindow", vxH_C17_mergeWindow) }
+
+// vxH_C17_mergeWindow: a small in-memory (or custom lower level) collection
+// whose top section already holds two batches when the merger starts, a
+// reader (Stats, Snapshot, Get, iterate) and a writer of a third batch,
+// explored with pre-emptions so that the reader runs inside the merger's
+// window between ingesting the top section and swapping in the merged
+// stack, and inside the hand-over to the persister.
+func vxH_C17_mergeWindow() {
+	co := CollectionOptions{}
+	var ll *vxLL
+	if vxChoose(2) == 1 {
+		ll = vxNewLL(nil)
+		co.LowerLevelInit = ll.snapshot()
+		co.LowerLevelUpdate = ll.update
+	}
+	ci, err := NewCollection(co)
+	vxAssert("new-ok", err == nil)
+	c := ci.(*collection)
+	if ll != nil {
+		ll.opts = c.options
+		ll.ss.options = c.options
+	}
+	for n := 0; n < 2; n++ {
+		b, _ := c.NewBatch(2, 16)
+		b.Set([]byte{'k', byte('0' + n)}, []byte{byte(n), vxU8()})
+		b.Set([]byte{'a'}, []byte{byte(n)})
+		c.ExecuteBatch(b, WriteOptions{})
+		b.Close()
+	}
+	c.Start()
+	var wg sync.WaitGroup
+	wg.Add(2)
+	go func() { // reader
+		defer wg.Done()
+		c.Stats()
+		snap, serr := c.Snapshot()
+		if serr == nil {
+			snap.Get([]byte{'a'}, ReadOptions{})
+			it, ierr := snap.StartIterator(nil, nil, IteratorOptions{})
+			if ierr == nil && it != nil {
+				for it.Next() == nil {
+				}
+				it.Close()
+			}
+			snap.Close()
+		}
+		c.Get([]byte{'k', '1'}, ReadOptions{})
+		c.Stats()
+	}()
+	go func() { // writer
+		defer wg.Done()
+		b, berr := c.NewBatch(1, 8)
+		if berr == nil {
+			b.Set([]byte{'w'}, []byte{'v'})
+			c.ExecuteBatch(b, WriteOptions{})
+			b.Close()
+		}
+	}()
+	wg.Wait()
+	c.NotifyMerger("mergeAll", true)
+	c.Stats()
+	c.Close()
+}
